@@ -89,7 +89,14 @@ def execute(ex: Execution, expected: list[str], arrivals: list[tuple[str, int]],
                 ctx.send_event(x)
             return None
 
+        def _ids(d: Any) -> Any:
+            return {k: [id(x) for x in v] for k, v in d.items() if v}
+
         async def coll(self, ctx, ev, inv):  # noqa: ANN001
+            # root-cause context: does this (re)started invocation see the step's buffer as it is right now?
+            ws = h.runners[-1].state.workers["coll"]
+            ip = next((x for x in ws.in_progress if x.event is ev), None)
+            inv.info["buffer_current_at_start"] = ip is None or _ids(ip.shared_state.collected_events) == _ids(ws.collected_events)
             await gate(f"c{label_of.get(id(ev), type(ev).__name__ + str(ev.uid))}")
             r = ctx.collect_events(ev, exp_types)
             if r is not None and wait_after:
@@ -132,6 +139,10 @@ def execute(ex: Execution, expected: list[str], arrivals: list[tuple[str, int]],
             v.append(("run_failed", wit, f"run ended: {hd._result_task}"))
         seen: Counter = Counter(u for lst in returned for u in lst)
         dup = sorted(u for u, n in seen.items() if n > 1)
+        # did an invocation that returned a list start (or was it re-run) from a buffer that was already out of date?
+        outdated = any(not inv.info.get("buffer_current_at_start", True) for inv in h.invocations
+                       if inv.step == "coll" and inv.exited and inv.exc is None and "returned" in inv.info)
+        wit = {**wit, "buffer_outdated_when_invocation_started": outdated}
         if dup:
             v.append(("event_in_two_returned_lists", wit, f"uids {dup} appear in more than one returned list: {returned}"))
         outcome = tuple(sorted(returned))
@@ -178,6 +189,13 @@ def programs(tier: str) -> list[Program]:
                                execute(ex, expected, arrivals, w, valid)),
                               max_dev=(None if len(arrivals) <= 4 else 4),
                               min_concurrency=min(w, len(arrivals))))
+    # a slow invocation whose buffer snapshot ([A1]) is overtaken by a whole completed set and by a longer next round
+    expected, arrivals = ["A", "B", "C"], [("A", 1), ("B", 0), ("B", 1), ("C", 0), ("A", 2), ("C", 2)]
+    for w in ((2,) if q else (2, 3)):
+        ps.append(Program(f"collect({''.join(expected)};{''.join(t + str(u) for t, u in arrivals)};w={w})",
+                          {"expected": expected, "arrivals": arrivals, "w": w},
+                          (lambda ex, expected=expected, arrivals=arrivals, w=w, valid=valid_outcomes(expected, arrivals):
+                           execute(ex, expected, arrivals, w, valid)), max_dev=(4 if q else 6), min_concurrency=w))
     for w in (1, 2):
         for expected, arrivals in ((["A", "B"], [("A", 1), ("B", 1)]), (["A", "B"], [("A", 1), ("B", 1), ("A", 2), ("B", 2)]),
                                    (["A", "A", "B"], [("A", 1), ("A", 2), ("B", 1)])):
